@@ -107,20 +107,25 @@ Proof.
     + rewrite get_dict_set_same. destruct v; [congruence|reflexivity..].
 Qed.
 
-Theorem pending_reported_value : forall id v m p,
+Theorem pending_reported_value : forall c id v m p,
   find_port id (m_ports m) = Some p ->
-  exists p', find_port id (m_ports (write_value_offline id v m)) = Some p' /\
+  exists p', find_port id (m_ports (write_value_offline c id v m)) = Some p' /\
     In "value" (reported_pending_port p') /\ mp_cached_value p' = v /\
-    (exists sp, In sp (sv_ports (save (write_value_offline id v m))) /\ sv_id sp = id /\ sv_value sp = v /\
+    (exists sp, In sp (sv_ports (save (write_value_offline c id v m))) /\ sv_id sp = id /\ sv_value sp = v /\
                 In "value" (sv_prov sp)).
 Proof.
-  intros id v m p F. set (p' := write_value_offline_port v p).
-  assert (F' : find_port id (m_ports (write_value_offline id v m)) = Some p').
-  { unfold write_value_offline. cbn [set_ports m_ports]. rewrite find_port_upd_same by reflexivity. rewrite F. reflexivity. }
-  assert (Hin : In "value" (mp_prov p')) by apply set_add_In.
-  exists p'. split; [exact F'|]. split; [exact Hin|]. split; [reflexivity|].
+  intros c id v m p F. set (p' := write_value_offline_port c v p).
+  assert (Hid' : forall q, mp_id (write_value_offline_port c v q) = mp_id q).
+  { intros q. unfold write_value_offline_port. destruct (offline_write_clears_queue c); reflexivity. }
+  assert (F' : find_port id (m_ports (write_value_offline c id v m)) = Some p').
+  { unfold write_value_offline. cbn [set_ports m_ports]. rewrite find_port_upd_same by exact Hid'. rewrite F. reflexivity. }
+  assert (Hin : In "value" (mp_prov p')).
+  { unfold p', write_value_offline_port. destruct (offline_write_clears_queue c); apply set_add_In. }
+  assert (Hcv : mp_cached_value p' = v).
+  { unfold p', write_value_offline_port. destruct (offline_write_clears_queue c); reflexivity. }
+  exists p'. split; [exact F'|]. split; [exact Hin|]. split; [exact Hcv|].
   exists (mk_saved_port (mp_id p') (mp_prov p') (mp_cached_value p') (mp_cached p')).
-  destruct (find_port_some _ _ _ F') as [Hp Hid]. split; [|split; [exact Hid|split; [reflexivity|exact Hin]]].
+  destruct (find_port_some _ _ _ F') as [Hp Hid]. split; [|split; [exact Hid|split; [exact Hcv|exact Hin]]].
   unfold save. cbn [sv_ports].
   apply (in_map (fun p => mk_saved_port (mp_id p) (mp_prov p) (mp_cached_value p) (mp_cached p))). exact Hp.
 Qed.
@@ -816,27 +821,5 @@ Proof.
   apply push_ok_poll_from. rewrite poll_device_ports. exact Hnd.
 Qed.
 
-(* ------------------------------------------------------------------------------------------------------------------ *)
-(* T5 (optional) — with the suggested hypotheses the episode theorem is FALSE for value edits: a value the slave reported
-   before the edit is still queued when the user writes, and the next iteration of the main loop (read_value) pops it into
-   _cached_value, which is the very field that holds the pending value.  The pending value 7 becomes 5. *)
-
-Definition ep_port : mport := mk_mport "x" [] [] (VZ 0) true (VZ 0) [] [] [].
-Definition ep_master : master := mk_master [ep_port] [] [] true false.
-Definition ep_steps : list ostep := [ORemote (EValueChange "x" (VZ 5)); OWriteValue "x" (VZ 7); OTick].
-
-Lemma episode_keeps_last_edits_refuted :
-  nothing_pending ep_master /\
-  Forall (fun p => mp_queue p = [] /\ mp_enabled p = true) (m_ports ep_master) /\
-  NoDup (ids (m_ports ep_master)) /\
-  (forall e, In (ORemote e) ep_steps -> forall id, keeps id e /\ stable id (SEv e)) /\
-  In (IPortValue "x" (VZ 7)) (last_edits ep_steps) /\
-  pending_items (orun cfg_fixed ep_steps ep_master) = [IPortValue "x" (VZ 5)].
-Proof.
-  split; [split; [reflexivity|repeat constructor]|].
-  split; [repeat constructor|].
-  split; [repeat constructor; intros []|].
-  split.
-  - intros e [H|[H|[H|[]]]]; try discriminate H. injection H as <-. intros id. split; exact I.
-  - split; [left; reflexivity|]. vm_compute. reflexivity.
-Qed.
+(* T5 — the composition over a whole offline episode is in EpisodeThm.v; its refutation for the code that did not clear the
+   queue at an offline write is History/C13Old.v C13_offline_write_keeps_queue_refuted *)
